@@ -12,9 +12,13 @@
      substitute fixed_constants in (guard,) kept initial assignments and loop body
      append  c = c  to the loop body for every other constant
 
-   Model [constants]; hypothesis [constants_ok] (boolean) forced by the proof — what it
-   excludes is re-assignment / use-before-definition of folded constants inside the initial
-   block, which the REAL code gets wrong (see notes_C02_cn.md); theorems:
+   (/repo 5e78f4d added: fold only a variable with ONE initial assignment that no earlier kept
+   initial assignment read and whose value mentions nothing assigned later in the initial part.)
+
+   Model [constants] = rule RFix (the code now); RCur / ROld are the two superseded rules, each
+   refuted.  Hypothesis [constants_ok] (boolean) forced by the proof; for the current rule it
+   holds BY CONSTRUCTION on structurally well-formed flat programs ([constants_ok_by_construction]);
+   theorems:
      [constants_coupled]    the two programs are coupled at every iteration
      [constants_preserves]  same expectation of every f that ignores the folded variables
      [constants_invariant]  in the original program every folded variable equals its folded
@@ -34,6 +38,7 @@ Definition body_vars (fp : flatprog) : list var := map ga_var (fp_body fp).
    RFix  the rule of proposed_fixes/constants_init_reassign.diff (additionally: the variable has
          a single initial assignment, was not read by an earlier kept initial assignment, and
          its value mentions nothing that is assigned later in the initial part) *)
+(* RFix is the rule of the code NOW (/repo 5e78f4d); RCur the rule between 3e6440d and 5e78f4d *)
 Inductive rule := ROld | RCur | RFix.
 Definition strict (r : rule) : bool := match r with ROld => false | _ => true end.
 
@@ -85,13 +90,13 @@ Definition constants_gen (r : rule) (fp : flatprog) : flatprog :=
   {| fp_init := map (subst_ga F) kept;
      fp_body := map (subst_ga F) (fp_body fp) ++ map self_assign (others bv kept) |}.
 
-Definition constants : flatprog -> flatprog := constants_gen RCur.
-Definition constants_old : flatprog -> flatprog := constants_gen ROld.
-Definition constants_fix : flatprog -> flatprog := constants_gen RFix.
+Definition constants : flatprog -> flatprog := constants_gen RFix.      (* the code now *)
+Definition constants_old : flatprog -> flatprog := constants_gen ROld.  (* before 3e6440d *)
+Definition constants_cur : flatprog -> flatprog := constants_gen RCur.  (* 3e6440d .. 5e78f4d *)
 
 (* the fixed constants with their folded expressions, and the folded variables *)
 Definition fixed_gen (r : rule) (fp : flatprog) : smap := fst (scan r (body_vars fp) [] [] (fp_init fp)).
-Definition fixed : flatprog -> smap := fixed_gen RCur.
+Definition fixed : flatprog -> smap := fixed_gen RFix.
 Definition folded (fp : flatprog) : list var := sdom (fixed fp).
 
 (* ---- the hypothesis the proof forces ---- *)
@@ -100,7 +105,7 @@ Definition prob_one (g : gassign) : bool :=
 
 (* x is not a fixed constant and no fixed value mentions it *)
 Definition fresh_for (F : smap) (x : var) : bool :=
-  negb (mem_var x (sdom F)) && forallb (fun ke => negb (mem_var x (vars_of (snd ke)))) F.
+  negb (mem_var x (sdom F)) && forallb (fun ke => negb (mem_var x (evars (snd ke)))) F.
 
 (* [rd]: variables read by the kept assignments met so far *)
 Fixpoint scan_ok (r : rule) (bv seen : list var) (F : smap) (rd : list var) (l : list gassign) : bool :=
@@ -115,13 +120,26 @@ Fixpoint scan_ok (r : rule) (bv seen : list var) (F : smap) (rd : list var) (l :
       end
   end.
 
-Definition closed_map (F : smap) : bool := forallb (fun ke => disjointb (vars_of (snd ke)) (sdom F)) F.
+(* needed for the invariant only: no folded value depends on a folded variable *)
+Definition closed_map (F : smap) : bool := forallb (fun ke => disjointb (evars (snd ke)) (sdom F)) F.
 
 Definition constants_ok_gen (r : rule) (fp : flatprog) : bool :=
   scan_ok r (body_vars fp) [] [] [] (fp_init fp)
-  && closed_map (fixed_gen r fp)
   && forallb (fun g => negb (mem_var (ga_default g) (sdom (fixed_gen r fp)))) (fp_body fp).
-Definition constants_ok : flatprog -> bool := constants_ok_gen RCur.
+Definition constants_ok : flatprog -> bool := constants_ok_gen RFix.
+
+(* structural well-formedness of the flat programs Polar builds (Assignment.__init__: the default
+   of an initial assignment is its own variable; MultiAssignTransformer: the default of a body
+   assignment is the variable itself or its previous version, both assigned in the body; a
+   PolyAssignment with one alternative has probability 1) *)
+Definition wf_init_ga (g : gassign) : bool :=
+  var_eqb (ga_default g) (ga_var g) &&
+  match ga_cond g, ga_rhs g with
+  | CTrue, RChoice [(p, _)] => match p with EConst q => Qc_eqb q 1 | _ => false end
+  | _, _ => true
+  end.
+Definition wf_flat (fp : flatprog) : bool :=
+  forallb wf_init_ga (fp_init fp) && forallb (fun g => mem_var (ga_default g) (body_vars fp)) (fp_body fp).
 
 (* ---- proofs ---- *)
 (* s : state of the original program, s' : state of the transformed program *)
@@ -136,7 +154,7 @@ Lemma upd_other s x v y : var_eqb y x = false -> upd s x v y = s y.
 Proof. unfold upd. intros ->. reflexivity. Qed.
 
 Lemma fresh_for_spec F x : fresh_for F x = true ->
-  slookup F x = None /\ forall k v, In (k, v) F -> ~ In x (vars_of v).
+  slookup F x = None /\ forall k v, In (k, v) F -> ~ In x (evars v).
 Proof.
   unfold fresh_for. intros H. apply andb_true_iff in H. destruct H as [H1 H2]. split.
   - apply slookup_none. destruct (mem_var x (sdom F)); [discriminate | reflexivity].
@@ -261,7 +279,7 @@ Section Constants.
           -- specialize (HS (ga_default g)). unfold agree in HS. rewrite slookup_none in HS; [exact HS|].
              destruct (mem_var (ga_default g) (sdom F)); [discriminate | reflexivity].
           -- intros val. apply Sub_upd; [exact HS | exact Hx|].
-             intros k v Hin. apply eval_upd_indep. apply (Hvals k v Hin).
+             intros k v Hin. apply eval_upd_indep_e. apply (Hvals k v Hin).
         * intros t t' Ht. apply (IH _ _ _ _ _ Es Hl). exact Ht.
   Qed.
 
@@ -310,7 +328,7 @@ Section Constants.
     forall n s0, coupled (Sub (fixed_gen r fp)) (frun law fp n s0) (frun law (constants_gen r fp) n s0).
   Proof.
     unfold constants_ok_gen, constants_gen, fixed_gen. intros Hr Hok.
-    apply andb_true_iff in Hok. destruct Hok as [Hok Hdef]. apply andb_true_iff in Hok. destruct Hok as [Hscan _].
+    apply andb_true_iff in Hok. destruct Hok as [Hscan Hdef].
     set (bv := body_vars fp) in *.
     destruct (scan r bv [] [] (fp_init fp)) as [F kept] eqn:Es. cbn [fst] in *.
     intros n s0. induction n as [|n IH]; cbn [frun fp_init fp_body].
@@ -341,44 +359,121 @@ Section Constants.
 
   (* the invariant that makes the substitution right *)
   Theorem constants_gen_invariant r fp : strict r = true -> constants_ok_gen r fp = true ->
+    closed_map (fixed_gen r fp) = true ->
     forall n s0 s, supp (frun law fp n s0) s ->
     forall k v, slookup (fixed_gen r fp) k = Some v -> s k = eval v s.
   Proof.
-    intros Hr Hok n s0 s Hs k v Hk.
+    intros Hr Hok Hcl n s0 s Hs k v Hk.
     destruct (coupled_supp_l _ _ _ _ (constants_gen_coupled r fp Hr Hok n s0) Hs) as [s' [_ HS]].
     pose proof (HS k) as Hk'. unfold agree in Hk'. rewrite Hk in Hk'. rewrite <- Hk'.
-    unfold constants_ok_gen in Hok. apply andb_true_iff in Hok. destruct Hok as [Hok _].
-    apply andb_true_iff in Hok. destruct Hok as [_ Hcl].
     unfold closed_map in Hcl. rewrite forallb_forall in Hcl.
     specialize (Hcl (k, v) (slookup_some_in _ _ _ Hk)). cbn [snd] in Hcl.
-    apply eval_ext. intros x Hx. specialize (HS x). unfold agree in HS.
+    apply eval_evars_ext. intros x Hx. specialize (HS x). unfold agree in HS.
     rewrite slookup_none in HS; [exact HS|].
     destruct (mem_var x (sdom (fixed_gen r fp))) eqn:Em; [|reflexivity].
     exfalso. exact (disjointb_spec _ _ Hcl x Hx (mem_var_true _ _ Em)).
   Qed.
 
-  (* the code as it is now *)
+  (* ---- the current rule: the hypothesis holds by construction ---- *)
+  Lemma fold_fix_conditions bv seen rest F g v :
+    fold_value RFix bv seen rest F g = Some v ->
+    mem_var (ga_var g) seen = false /\ mem_var (ga_var g) rest = false /\ disjointb (evars v) rest = true.
+  Proof.
+    unfold fold_value. destruct (mem_var (ga_var g) bv); [discriminate|].
+    destruct (ga_cond g); try discriminate. destruct (ga_rhs g) as [alts|]; [|discriminate].
+    destruct alts as [|[p e] [|]]; try discriminate.
+    destruct (disjointb (evars (subst_e F e)) bv); [|discriminate]. cbn [andb].
+    destruct (mem_var (ga_var g) seen); [discriminate|]. destruct (mem_var (ga_var g) rest); [discriminate|].
+    cbn [negb andb]. destruct (disjointb (evars (subst_e F e)) rest) eqn:Ed; [|discriminate].
+    intros H. injection H as <-. auto.
+  Qed.
+
+  Lemma scan_ok_fix bv l : forall seen F rd,
+    forallb wf_init_ga l = true -> incl rd seen ->
+    (forall k, In k (sdom F) -> ~ In k (map ga_var l)) ->
+    (forall k v, In (k, v) F -> forall x, In x (evars v) -> ~ In x (map ga_var l)) ->
+    scan_ok RFix bv seen F rd l = true.
+  Proof.
+    induction l as [|g l IH]; intros seen F rd Hwf Hrd H1 H2; [reflexivity|].
+    cbn [forallb] in Hwf. apply andb_true_iff in Hwf. destruct Hwf as [Hg Hl].
+    cbn [scan_ok map] in *. destruct (fold_value RFix bv seen (map ga_var l) F g) as [v|] eqn:Ef.
+    - destruct (fold_fix_conditions _ _ _ _ _ _ Ef) as [Hseen [Hrest Hdis]].
+      destruct (fold_value_shape _ _ _ _ _ _ _ Ef) as [_ [Hc [p [e [Hr _]]]]].
+      apply andb_true_iff. split; [apply andb_true_iff; split|].
+      + unfold wf_init_ga in Hg. apply andb_true_iff in Hg. destruct Hg as [_ Hg]. rewrite Hc, Hr in Hg.
+        unfold prob_one. rewrite Hr. exact Hg.
+      + destruct (mem_var (ga_var g) rd) eqn:Em; [|reflexivity].
+        rewrite (mem_var_In _ _ (Hrd _ (mem_var_true _ _ Em))) in Hseen. discriminate.
+      + apply IH; [exact Hl | intros y Hy; right; apply Hrd, Hy | |].
+        * intros k [<-|Hk]; [apply mem_var_false; exact Hrest | intros Hin; apply (H1 k Hk); right; exact Hin].
+        * intros k v0 [Hin|Hin] x Hx.
+          -- injection Hin as <- <-. exact (disjointb_spec _ _ Hdis x Hx).
+          -- intros Hl'. apply (H2 k v0 Hin x Hx). right; exact Hl'.
+    - unfold wf_init_ga in Hg. apply andb_true_iff in Hg. destruct Hg as [Hd _].
+      apply String.eqb_eq in Hd.
+      assert (Hx : mem_var (ga_var g) (sdom F) = false).
+      { destruct (mem_var (ga_var g) (sdom F)) eqn:Em; [|reflexivity].
+        exfalso. apply (H1 _ (mem_var_true _ _ Em)). left; reflexivity. }
+      apply andb_true_iff. split; [apply andb_true_iff; split|].
+      + unfold fresh_for. rewrite Hx. cbn [negb andb]. apply forallb_forall. intros [k v] Hin. cbn [snd].
+        destruct (mem_var (ga_var g) (evars v)) eqn:Em; [|reflexivity].
+        exfalso. apply (H2 k v Hin _ (mem_var_true _ _ Em)). left; reflexivity.
+      + rewrite Hd, Hx. reflexivity.
+      + apply IH; [exact Hl | | |].
+        * unfold seen_kept. intros y Hy. right. right. apply in_app_or in Hy. apply in_or_app.
+          destruct Hy as [Hy|Hy]; [left; exact Hy | right; apply Hrd, Hy].
+        * intros k Hk Hin. apply (H1 k Hk). right; exact Hin.
+        * intros k v Hin x Hxv Hl'. apply (H2 k v Hin x Hxv). right; exact Hl'.
+  Qed.
+
+  (* folded variables are not loop variables *)
+  Lemma scan_dom_not_body r bv l : forall seen F F' kept,
+    scan r bv seen F l = (F', kept) -> (forall k, In k (sdom F) -> mem_var k bv = false) ->
+    forall k, In k (sdom F') -> mem_var k bv = false.
+  Proof.
+    induction l as [|g l IH]; cbn [scan]; intros seen F F' kept Hs HF.
+    - injection Hs as <- _. exact HF.
+    - destruct (fold_value r bv seen (map ga_var l) F g) as [v|] eqn:Ef.
+      + apply (IH _ _ _ _ Hs). intros k [<-|Hk]; [|apply HF, Hk].
+        destruct (fold_value_shape _ _ _ _ _ _ _ Ef) as [Hb _]. exact Hb.
+      + destruct (scan r bv (seen_kept g seen) F l) as [F1 k1] eqn:Es. injection Hs as <- _. eapply IH; eauto.
+  Qed.
+
+  Theorem constants_ok_by_construction fp : wf_flat fp = true -> constants_ok fp = true.
+  Proof.
+    unfold wf_flat, constants_ok, constants_ok_gen, fixed_gen. intros H.
+    apply andb_true_iff in H. destruct H as [Hi Hb]. apply andb_true_iff. split.
+    - apply scan_ok_fix; [exact Hi | intros y [] | intros k [] | intros k v []].
+    - apply forallb_forall. intros g Hg. rewrite forallb_forall in Hb. specialize (Hb g Hg).
+      destruct (scan RFix (body_vars fp) [] [] (fp_init fp)) as [F kept] eqn:Es. cbn [fst].
+      destruct (mem_var (ga_default g) (sdom F)) eqn:Em; [|reflexivity].
+      rewrite (scan_dom_not_body _ _ _ _ _ _ _ Es (fun k (Hk : In k (sdom [])) => match Hk with end) _ (mem_var_true _ _ Em)) in Hb.
+      discriminate.
+  Qed.
+
+  (* the code as it is now (rule RFix) *)
   Theorem constants_coupled fp : constants_ok fp = true ->
     forall n s0, coupled (Sub (fixed fp)) (frun law fp n s0) (frun law (constants fp) n s0).
-  Proof. apply (constants_gen_coupled RCur fp eq_refl). Qed.
+  Proof. apply (constants_gen_coupled RFix fp eq_refl). Qed.
   Theorem constants_preserves fp : constants_ok fp = true ->
     forall n s0 f, ignores (folded fp) f ->
     E (frun law (constants fp) n s0) f = E (frun law fp n s0) f.
-  Proof. apply (constants_gen_preserves RCur fp eq_refl). Qed.
-  Theorem constants_invariant fp : constants_ok fp = true ->
+  Proof. apply (constants_gen_preserves RFix fp eq_refl). Qed.
+  Theorem constants_preserves_wf fp : wf_flat fp = true ->
+    forall n s0 f, ignores (folded fp) f ->
+    E (frun law (constants fp) n s0) f = E (frun law fp n s0) f.
+  Proof. intros H. apply constants_preserves, constants_ok_by_construction, H. Qed.
+  Theorem constants_invariant fp : constants_ok fp = true -> closed_map (fixed fp) = true ->
     forall n s0 s, supp (frun law fp n s0) s ->
     forall k v, slookup (fixed fp) k = Some v -> s k = eval v s.
-  Proof. apply (constants_gen_invariant RCur fp eq_refl). Qed.
-
-  (* the rule of the proposed patch *)
-  Theorem constants_fix_preserves fp : constants_ok_gen RFix fp = true ->
-    forall n s0 f, ignores (sdom (fixed_gen RFix fp)) f ->
-    E (frun law (constants_fix fp) n s0) f = E (frun law fp n s0) f.
-  Proof. apply (constants_gen_preserves RFix fp eq_refl). Qed.
-  Theorem constants_fix_invariant fp : constants_ok_gen RFix fp = true ->
-    forall n s0 s, supp (frun law fp n s0) s ->
-    forall k v, slookup (fixed_gen RFix fp) k = Some v -> s k = eval v s.
   Proof. apply (constants_gen_invariant RFix fp eq_refl). Qed.
+
+  (* the superseded rule RCur (3e6440d .. 5e78f4d) satisfied the same theorem, but only under
+     the hypothesis, which its own choices could violate (constants_cur_without_ok_refuted) *)
+  Theorem constants_cur_preserves fp : constants_ok_gen RCur fp = true ->
+    forall n s0 f, ignores (sdom (fixed_gen RCur fp)) f ->
+    E (frun law (constants_cur fp) n s0) f = E (frun law fp n s0) f.
+  Proof. apply (constants_gen_preserves RCur fp eq_refl). Qed.
 End Constants.
 
 (* ---- the pre-repair rule is unsound ---- *)
@@ -417,13 +512,13 @@ Definition wit_b : flatprog :=
 
 
 Definition obs (x : var) : state -> Qc := fun s => s x.
-Theorem constants_without_ok_refuted :
+Theorem constants_cur_without_ok_refuted :
   exists (fp : flatprog) (n : nat) (s0 : state) (f : state -> Qc),
-    ignores (folded fp) f /\ E (frun no_law (constants fp) n s0) f <> E (frun no_law fp n s0) f.
+    ignores (sdom (fixed_gen RCur fp)) f /\ E (frun no_law (constants_cur fp) n s0) f <> E (frun no_law fp n s0) f.
 Proof.
   exists wit_a, 0%nat, st0, (obs "y"). split.
   - intros s s' H. apply H. vm_compute. reflexivity.
-  - assert (H1 : E (frun no_law (constants wit_a) 0 st0) (obs "y") = mkq 2 1) by (vm_compute; reflexivity).
+  - assert (H1 : E (frun no_law (constants_cur wit_a) 0 st0) (obs "y") = mkq 2 1) by (vm_compute; reflexivity).
     assert (H2 : E (frun no_law wit_a 0 st0) (obs "y") = mkq 1 1) by (vm_compute; reflexivity).
     rewrite H1, H2. intros H. discriminate H.
 Qed.
@@ -489,5 +584,5 @@ Definition constants_matches_gen (r : rule) (fp out : flatprog) : bool :=
   && list_eqb ga_eq_poly (firstn nb (fp_body m)) (firstn nb (fp_body out))
   && perm_eq (skipn nb (fp_body m)) (skipn nb (fp_body out)).
 
-Definition constants_in_model : flatprog -> bool := constants_in_model_gen RCur.
-Definition constants_matches : flatprog -> flatprog -> bool := constants_matches_gen RCur.
+Definition constants_in_model : flatprog -> bool := constants_in_model_gen RFix.
+Definition constants_matches : flatprog -> flatprog -> bool := constants_matches_gen RFix.
